@@ -173,4 +173,43 @@ def plainSchema (s : Schema) : Bool :=
 
 def Plain (S : Schemas) : Bool := S.all plainSchema
 
+/-! ### first extension: two-branch `T | null` disjunctions (removed by DisjunctionWithNullToOptional)
+
+`nrTy` is the fragment handled at the NotRequiredFieldAsNullableType step: plain types, plus — in
+field, element and map-value position — `T | null` / `null | T` with a plain `T` (the hook of
+DisjunctionWithNullToOptional replaces the traversal, so a pair nested below the `T` would survive). -/
+
+/-- the non-null branch of a two-branch disjunction with exactly one `null` branch -/
+def nullPairOf : List Ty → Option Ty
+  | [a, b] =>
+    if isNull a && !isNull b then some b
+    else if isNull b && !isNull a then some a
+    else none
+  | _ => none
+
+def nullPair (bs : List Ty) : Bool :=
+  match nullPairOf bs with
+  | some t => plainTy t
+  | none => false
+
+def nrTy : Ty → Bool
+  | .scalar .. => true
+  | .ref .. => true
+  | .array e _ => nrTy e
+  | .map i v _ => i.isScalar && nrTy v
+  | .disj bs _ _ => nullPair bs
+  | _ => false
+
+def nrObjTy : Ty → Bool
+  | .struct fs _ none _ => fs.all fun f => nrTy f.ty
+  | .struct _ _ (some _) _ => false
+  | .enum .. => true
+  | t => nrTy t
+
+def nrSchema (s : Schema) : Bool :=
+  wfObjects s.objects && plainEpt s.entryPointType && s.objects.all fun ko => nrObjTy ko.2.ty
+
+/-- plain, or with `T | null` pairs -/
+def PlainN (S : Schemas) : Bool := S.all nrSchema
+
 end Cog.Sem.Src
